@@ -44,7 +44,7 @@ SKELS = [
 
 
 def bounds(tier):
-    return {"skeletons": [s["text"] for s in SKELS], "target": "< hi per skeleton (2-3 units per block)", "weights": "{0} u [1e-6,1e6]"}
+    return {"skeletons": [s["text"] for s in SKELS], "target": "< hi per skeleton (2-3 units per block; thorough: hi + 28 Da, one more unit)", "weights": "{0} u [1e-6,1e6]"}
 
 
 def cases(tier):
@@ -174,7 +174,7 @@ def run_case(case, g, tier, res):
         roles = gen.symbolize_weights(c, mol)
         obs = gen.Observer()
         gen.install_observers(g, obs)
-        gen.DRAW_FN[0] = gen.symbolic_draw({}, skel["hi"])
+        gen.DRAW_FN[0] = gen.symbolic_draw({}, skel["hi"] + (28 if tier == "thorough" else 0))  # thorough: one more unit per block
         gen.OBS[0] = obs
         rng = SymRng(zero_threshold=1e-200)
         from symx import npshim
